@@ -1,7 +1,7 @@
 #!/bin/sh
 # tools/run_seeded.sh [Cxx-X ...] : apply each kept seeded change to /repo, run the property's quick check, undo; prints one line each
 cd /verif
-for d in ${@:-$(ls seeded)}; do
+for d in ${@:-$(ls -d seeded/*/ | xargs -n1 basename)}; do
   P=${d%%-*}
   [ -f contracts/$P.py ] || { echo "$d: no check for $P yet"; continue; }
   git -C /repo apply /verif/seeded/$d/patch.diff || { echo "$d: patch does not apply"; continue; }
